@@ -161,7 +161,8 @@ Qed.
 Lemma enc_header_length ver hsz mb tab :
   length (enc_header ver hsz mb tab) = (4 + (8 + (8 + (length mb + (8 + 10 * length tab)))))%nat.
 Proof.
-  unfold enc_header. rewrite !app_length, !le_enc_length, enc_tab_length. reflexivity.
+  unfold enc_header. rewrite !app_length, !le_enc_length, enc_tab_length.
+  replace (length (magic ver)) with 8%nat by (destruct ver; reflexivity). reflexivity.
 Qed.
 
 Lemma open_sealed ver hsz mb tab body :
@@ -173,7 +174,7 @@ Lemma open_sealed ver hsz mb tab body :
   open_ ver (file_reader (enc_header ver hsz mb tab ++ body)) = Ok {| r_tab := rev tab; r_base := hsz + 4 |}.
 Proof.
   intros Hmeta Htab Hcnt Hhsz Hlen.
-  set (rest_hdr := magic ++ le_enc 8 (version_num ver) ++ mb
+  set (rest_hdr := magic ver ++ le_enc 8 (version_num ver) ++ mb
                    ++ le_enc 8 (N.of_nat (length tab) mod two64) ++ enc_tab tab).
   assert (Ehdr : enc_header ver hsz mb tab = le_enc 4 hsz ++ rest_hdr) by reflexivity.
   assert (Hrl : N.of_nat (length rest_hdr) = hsz).
@@ -193,8 +194,8 @@ Proof.
   unfold open_. fold f. rewrite H1, H4.
   rewrite le_roundtrip by (unfold two32 in Hhsz; cbn; lia).
   rewrite Hh. unfold rest_hdr.
-  change 8%nat with (length magic) at 1. rewrite take_app. rewrite list_eqb_refl. cbn [negb].
-  rewrite take_le_enc. rewrite le_roundtrip by (destruct ver; cbn; lia). rewrite N.eqb_refl. cbn [negb].
+  replace magic_len with (length (magic ver)) by (destruct ver; reflexivity). rewrite take_app. rewrite list_eqb_refl. cbn [negb].
+  rewrite take_le_enc. rewrite le_roundtrip by (destruct ver; vm_compute; reflexivity). rewrite N.eqb_refl. cbn [negb].
   rewrite Hmeta. rewrite take_le_enc.
   rewrite N.mod_small by exact Hcnt. rewrite le_roundtrip by (unfold two64 in Hcnt; cbn; lia).
   rewrite parse_tab_roundtrip; [|exact Htab|rewrite enc_tab_length; lia].
